@@ -211,7 +211,7 @@ struct World {
         for (auto &kv : cbs) {
             for (int i = 0; i < kv.second.ninst; i++) {
                 const char *a = static_cast<const char *>(kv.second.inst[i]);
-                if (a >= p && a < p + alignof(std::max_align_t)) return kv.first;
+                if (a >= p && a < p + 16) return kv.first;
             }
         }
         return "unknown";
